@@ -60,10 +60,7 @@ impl<'a> StringLexer<'a> {
                     b'(' => Some(b'('),
                     b')' => Some(b')'),
                     b'\n' => {
-                        // ignore end-of-line marker
-                        if let Ok(b'\r') = self.peek_byte() {
-                            let _ = self.next_byte();
-                        }
+                        // ignore end-of-line marker (LF; a following CR is a line ending of its own)
                         self.next_lexeme()?
                     }
                     b'\r' => {
@@ -75,6 +72,8 @@ impl<'a> StringLexer<'a> {
                     }
                     b'\\' => Some(b'\\'),
 
+                    // the backslash is ignored if the next character is not one of those above
+                    c if !(b'0'..=b'7').contains(&c) => Some(c),
                     _ => {
                         self.back()?;
                         let _start = self.get_offset();
@@ -108,6 +107,14 @@ impl<'a> StringLexer<'a> {
                     Ok(Some(b')'))
                 }
             },
+
+            // an end-of-line marker inside a string (CR, LF or CR LF) is read as LF
+            b'\r' => {
+                if let Ok(b'\n') = self.peek_byte() {
+                    let _ = self.next_byte();
+                }
+                Ok(Some(b'\n'))
+            }
 
             c => Ok(Some(c))
 
